@@ -36,6 +36,7 @@ static void set_script(int fd, const int *s, int n)
 	vh_io_n = n;
 	vh_io_pos = 0;
 	vh_io_calls = 0;
+	vh_io_errs = 0;
 	memcpy(vh_io_script, s, sizeof(int) * (size_t)n);
 }
 static int gen_script(int *s, int maxn, int total)
@@ -156,6 +157,7 @@ static void do_tofd(json_object *obj, int flags, int via_file)
 	ev_script(script, ns);
 	ev_int("ret", ret);
 	ev_int("calls", calls);
+	ev_int("err_hit", vh_io_errs);
 	ev_bytes("delivered", got ? got : (unsigned char *)"", gl > 3000 ? 0 : gl);
 	ev_int("dlen", (long long)gl);
 	/* for long documents only the verdict of the byte comparison travels */
@@ -234,6 +236,7 @@ static void do_fromfd(const unsigned char *data, size_t len, int depth, int via_
 	ev_int("blen", (long long)len);
 	ev_int("depth", depth);
 	ev_script(script, ns);
+	ev_int("err_hit", vh_io_errs);
 	ev_bool("got_value", o != NULL);
 	if (len <= 3000)
 	{
